@@ -76,6 +76,11 @@ func runSolver(s solverDef, timeoutS int, file string) (status, out string, ms i
 	ms = time.Since(t0).Milliseconds()
 	out = buf.String()
 	first := strings.TrimSpace(strings.SplitN(out, "\n", 2)[0])
+	// an (error ...) before the verdict means the script was malformed: never trust what follows.
+	// (z3 4.8 prints an error for get-value after unsat; that comes after the verdict line.)
+	if strings.HasPrefix(first, "(error") {
+		return "error", out, ms
+	}
 	switch first {
 	case "unsat", "sat", "unknown":
 		status = first
@@ -127,6 +132,13 @@ func Solve(obls []*Obligation, dir string, timeoutS int, allSolvers bool, jobs i
 					if r.Status != "unsat" && r.Status != "sat" {
 						r.Output = out
 						r.Ms += ms
+					}
+				}
+			}
+			if r.Status == "unknown" {
+				for _, t := range r.Tried {
+					if strings.Contains(t, ":error:") {
+						r.Status = "error"
 					}
 				}
 			}
